@@ -61,25 +61,17 @@ class Eff:
 
 
 class DeepInline(Policy):
-    """inline every package function (except listener interfaces) - used for ordering analysis"""
+    """policy of the ordering analysis: nothing is spliced (each function is enumerated alone and
+    callees are entered 'virtually' by Effects.collect), loops unrolled `unroll` times"""
 
-    def __init__(self, max_depth=9, unroll=1, skip=()):
-        self.max_depth = max_depth
+    def __init__(self, max_depth=0, unroll=1, skip=()):
+        self.max_depth = 0
         self.unroll = unroll
-        self.skip = set(skip)
         self.inline_properties = False
-        self.inline_ctors = True
+        self.inline_ctors = False
 
     def inline(self, fi, depth, ev):
-        if depth >= self.max_depth or fi.qual in self.skip:
-            return False
-        if fi.module.short == "utils":
-            return False
-        if fi.kind == "property":
-            return False
-        if fi.module.short in ("header", "config"):
-            return False  # codecs and matching predicates have no event-loop effects
-        return True
+        return False
 
 
 class Slots:
@@ -246,40 +238,42 @@ class Effects:
 
     # ------------------------------------------------------------------ expansion
     def collect(self, fi: FuncInfo, recv: t.Optional[str] = None, args=None, kwargs=None, recv_term=None,
-                wave: int = 0, prefix: t.Tuple[int, ...] = (), chain: t.Tuple[str, ...] = (),
+                wave: int = 0, prefix: t.Tuple = (), chain: t.Tuple[str, ...] = (),
                 _seen: t.Optional[set] = None) -> t.List[Eff]:
+        """effects reachable from fi.  Every function is enumerated on its own (no path products);
+        synchronous callees are entered with their actual argument terms ('virtual inlining'), the
+        position of an effect is the chain of source positions of the call sites leading to it."""
         eng = Engine(self.prog, self.policy)
         paths = eng.paths(fi, recv=recv, args=args, kwargs=kwargs, recv_term=recv_term, depth=1 if args is not None else 0)
         self.paths_enumerated += len(paths)
         out: t.List[Eff] = []
         seen_keys = set()
         _seen = _seen if _seen is not None else set()
+        here = chain + (fi.qual,)
+        if len(here) > 14:
+            return out
         for p in paths:
-            stack = [fi.qual]
-            for idx, e in enumerate(p.events):
-                if e.kind == "enter":
-                    stack.append(e.targets[0].qual)
+            for e in p.events:
+                if e.kind in ("enter", "leave"):
                     continue
-                if e.kind == "leave":
-                    if len(stack) > 1:
-                        stack.pop()
-                    continue
-                here = chain + tuple(stack)
-                stamp = prefix + (idx,)
+                pos = (getattr(e.node, "lineno", 0), getattr(e.node, "col_offset", 0))
+                if e.func is not fi:
+                    # event inside an inlined closure / nested def: order by the closure's call site
+                    pos = pos
+                stamp = prefix + (pos,)
+                dkey = (id(e.node), e.kind)
                 k = self.classify(e, eng)
-                dkey = (id(e.node), e.kind, here, wave)
-                if k is not None:
-                    if dkey not in seen_keys:
-                        seen_keys.add(dkey)
-                        out.append(Eff(k[0], k[1], e, wave, stamp, here))
+                if k is not None and dkey not in seen_keys:
+                    seen_keys.add(dkey)
+                    out.append(Eff(k[0], k[1], e, wave, stamp, here))
                 if e.kind != "call":
+                    continue
+                ckey = (id(e.node), "x", tuple(f.qual for f in e.targets), strip_sites(e.recv) if e.recv is not None else None)
+                if ckey in seen_keys:
                     continue
                 # scheduling requests ------------------------------------------------
                 if e.sched:
-                    skey = (id(e.node), "sched", here, wave)
-                    if skey in seen_keys:
-                        continue
-                    seen_keys.add(skey)
+                    seen_keys.add(ckey)
                     kind = "timer" if e.sched == "later" else "sched"
                     out.append(Eff(kind, e.sched, e, wave, stamp, here, detail=e.cb))
                     if e.sched == "later" or wave + 1 > self.max_wave:
@@ -291,21 +285,24 @@ class Effects:
                 if not e.targets and not e.ext and e.fterm is not None and not e.inlined:
                     cands = self.slots.resolve_callable(e.fterm)
                     if cands:
-                        ckey = (id(e.node), "cb", here, wave)
-                        if ckey in seen_keys:
-                            continue
                         seen_keys.add(ckey)
                         for cb in cands:
                             out.extend(self._expand_callable(cb, e.args, e.kwargs, wave, stamp, here, _seen, eng, sync=True))
-                # non-inlined package calls (depth bound / recursion): follow flow-insensitively
-                elif e.targets and not e.inlined and not e.coro and e.targets[0].qual not in LISTENER_METHODS \
+                    continue
+                # package callee: enter it with the actual arguments ------------------------
+                if e.targets and not e.inlined and not e.coro and e.targets[0].qual not in LISTENER_METHODS \
                         and e.targets[0].module.short in ("sd", "service"):
-                    ckey = (id(e.node), "deep", here, wave)
-                    if ckey in seen_keys or e.targets[0].qual in stack:
-                        continue
                     seen_keys.add(ckey)
-                    rt = e.recv if e.fterm[0] == "bound" else None
-                    out.extend(self._expand_callable(e.fterm, e.args, e.kwargs, wave, stamp, here, _seen, eng, sync=True))
+                    callee = e.targets[0]
+                    if callee.qual in here:
+                        continue
+                    if e.fterm[0] == "cls":
+                        cb = ("bound", e.result if e.result is not None else ("new", e.fterm[1], (), None), callee.qual)
+                    elif e.fterm[0] in ("bound", "func"):
+                        cb = e.fterm if e.fterm[0] == "func" else ("bound", e.fterm[1], callee.qual)
+                    else:
+                        continue
+                    out.extend(self._expand_callable(cb, e.args, e.kwargs, wave, stamp, here, _seen, eng, sync=True))
         return out
 
     def _callables(self, cb, cargs, ckw, eng: Engine):
@@ -337,9 +334,9 @@ class Effects:
                 ev.targets = [fi]
                 ev.args = tuple(cargs)
                 ev.seq = 0
-                return [Eff("notify", LISTENER_METHODS[fi.qual], ev, wave, stamp + (0,), chain + (fi.qual,))]
+                return [Eff("notify", LISTENER_METHODS[fi.qual], ev, wave, stamp + ((0, 0),), chain + (fi.qual,))]
             key = (fi.qual, strip_sites(recv_term), wave, stamp)
-            if key in _seen or len(_seen) > 4000:
+            if key in _seen or len(_seen) > 20000 or fi.qual in chain:
                 return []
             _seen.add(key)
             return self.collect(fi, recv=rc, args=tuple(cargs), kwargs=tuple(ckw), recv_term=recv_term,
